@@ -662,39 +662,44 @@ Proof.
     rewrite Hs4. reflexivity.
 Qed.
 
-(* FilterExpr ::= PrimaryExpr | PrimaryExpr Predicate   (this parser: at most one) *)
-Theorem Filt_prim : forall dn ts a, PrimP dn ts a -> FiltP dn ts a.
+(* FilterExpr ::= PrimaryExpr Predicate*  *)
+Theorem Filt_mk : forall dn ts a pts h,
+  PrimP dn ts a -> PredsP dn pts h -> preds_start pts ->
+  FiltP dn (ts ++ pts) (h a).
 Proof.
-  intros dn ts a HP f n d st lts L1 Hf Hd Hm HA Hb.
-  destruct (HP f n d st lts L1 Hf Hd Hm HA (hd_typ_not_ne _ _ Hb)) as [st1 [Hi [Hp HA1]]].
-  exists st1. split; [exact Hi|]. split; [|exact HA1].
-  unfold filter_expr_b. rewrite Hp. cbn [cbind].
-  rewrite (is_typ_hd_not _ _ _ _ HA1 Hb). reflexivity.
+  intros dn ts a pts h HP HPs Hst f n d st lts L1 Hf Hd Hm HA Hb.
+  rewrite app_length in Hf.
+  destruct (map_snd_app_inv lts _ _ Hm) as [l1 [l2 [E [H1 H2]]]]. subst lts.
+  rewrite <- app_assoc in HA.
+  assert (Hne : l2 ++ L1 <> []).
+  { pose proof (hd_typ_not_ne _ _ Hb). destruct l2; [assumption|discriminate]. }
+  destruct (HP f n d st l1 (l2 ++ L1)) as [st1 [Hi [Hp HA1]]];
+    [lia|exact Hd|exact H1|exact HA|exact Hne|].
+  destruct (HPs f f a d st1 l2 L1) as [st2 [Hp2 HA2]];
+    [lia|lia|exact Hd|exact H2|exact HA1|exact Hb|].
+  exists st2. split; [exact Hi|]. split; [|exact HA2].
+  unfold filter_expr_b. rewrite Hp. cbn [cbind]. exact Hp2.
 Qed.
 
+Theorem Filt_prim : forall dn ts a, PrimP dn ts a -> FiltP dn ts a.
+Proof.
+  intros dn ts a HP. rewrite <- (app_nil_r ts).
+  apply (Filt_mk dn ts a [] (fun x => x)); [exact HP| |exact I].
+  eapply PredsP_depth; [|apply Preds_nil]. lia.
+Qed.
+
+(* one predicate, spelled out:  prim[e] *)
 Theorem Filt_pred : forall dn ts a dn' ets c,
   PrimP dn ts a -> ParsesE ns dn' ets c -> dn' < dn ->
   FiltP dn (ts ++ TP ILBracket :: ets ++ [TP IRBracket]) (AFilter a c).
 Proof.
-  intros dn ts a dn' ets c HP HE Hdn f n d st lts L1 Hf Hd Hm HA Hb.
-  rewrite app_length in Hf. cbn [List.length] in Hf. rewrite app_length in Hf. cbn [List.length] in Hf.
-  destruct (map_snd_app_inv lts _ _ Hm) as [l1 [l2 [E [H1 H2]]]]. subst lts.
-  destruct l2 as [|[wb tb] l2]; [discriminate|]. cbn [map snd] in H2.
-  inversion H2 as [[Htb H2']]. subst tb.
-  destruct (map_snd_app_inv l2 _ _ H2') as [l3 [l4 [E [H3 H4]]]]. subst l2.
-  destruct l4 as [|[wc tc] [|x l4]]; try discriminate. inversion H4 as [Htc]. subst tc.
-  rewrite <- app_assoc in HA. cbn [app] in HA. rewrite <- app_assoc in HA. cbn [app] in HA.
-  destruct (HP f n d st l1 ((wb, TP ILBracket) :: l3 ++ (wc, TP IRBracket) :: L1))
-    as [st1 [Hi [Hp HA1]]]; [lia|exact Hd|exact H1|exact HA|discriminate|].
-  assert (Hne : l3 ++ (wc, TP IRBracket) :: L1 <> []) by (destruct l3; discriminate).
-  destruct (skip_item_At _ _ _ _ _ HA1 Hne) as [st2 [Hs2 HA2]]. cbn [ttyp] in Hs2.
-  destruct (HE f (Some a) d st2 l3 ((wc, TP IRBracket) :: L1)) as [st3 [Hp3 HA3]];
-    [lia|lia|exact H3|exact HA2|reflexivity|].
-  destruct (skip_item_At _ _ _ _ _ HA3 (hd_typ_not_ne _ _ Hb)) as [st4 [Hs4 HA4]]. cbn [ttyp] in Hs4.
-  exists st4. split; [exact Hi|]. split; [|exact HA4].
-  unfold filter_expr_b. rewrite Hp. cbn [cbind].
-  rewrite (is_typ_At _ _ _ _ _ ILBracket HA1). cbn [ttyp itype_eqb].
-  rewrite Hs2. cbn [cbind]. rewrite Hp3. cbn [cbind]. rewrite Hs4. reflexivity.
+  intros dn ts a dn' ets c HP HE Hdn.
+  apply (Filt_mk dn ts a (TP ILBracket :: ets ++ [TP IRBracket]) (fun x => AFilter x c));
+    [exact HP| |reflexivity].
+  destruct dn as [|dn]; [lia|].
+  apply (Preds_cons dn ets c [] (fun x => x)).
+  - eapply ParsesE_depth; [|exact HE]. lia.
+  - eapply PredsP_depth; [|apply Preds_nil]. lia.
 Qed.
 
 (* PathExpr ::= FilterExpr | FilterExpr '/' RelativeLocationPath | FilterExpr '//' RelativeLocationPath *)
@@ -704,7 +709,7 @@ Proof.
   destruct (follow1_hd _ _ Hfo) as [Hb [Hs [Hss Hl]]].
   destruct (HF f n d st lts L1 Hf Hd Hm HA Hb) as [st1 [Hi [Hp HA1]]].
   exists st1. split; [|exact HA1].
-  destruct (path_tail_stop ns f st1 d L1 a HA1 Hfo) as [_ T2].
+  destruct (path_tail_stop ns f st1 d L1 a ltac:(lia) HA1 Hfo) as [_ T2].
   cbn [lev]. unfold path_expr_b. rewrite Hi. rewrite Hp. cbn [cbind]. exact T2.
 Qed.
 
@@ -753,7 +758,7 @@ Inductive px :=
 | XCall (fn : string) (a : xargs)
 | XCall0 (fn : string)
 | XVar (nm : string)                              (* $nm *)
-| XFilter (p e : px)                              (* p[e], p a primary expression *)
+| XFilter (p : px) (ps : xpreds)                  (* p[e1]...[ek], p a primary expression *)
 | XFPath (p : px) (dbl : bool) (r : rpath)        (* p/r or p//r, p a filter expression *)
 with rpath :=
 | ROne (s : xstep)
@@ -812,7 +817,7 @@ Fixpoint xtoks (e : px) : list token :=
   | XCall fn a => TName fn :: TP ILParens :: atoks a ++ [TP IRParens]
   | XCall0 fn => [TName fn; TP ILParens; TP IRParens]
   | XVar nm => [TP IDollar; TName nm]
-  | XFilter p e => xtoks p ++ TP ILBracket :: xtoks e ++ [TP IRBracket]
+  | XFilter p ps => xtoks p ++ ptoks ps
   | XFPath p dbl r => xtoks p ++ slash_tok dbl :: rtoks r
   end
 with rtoks (p : rpath) : list token :=
@@ -848,7 +853,7 @@ Fixpoint xast (e : px) : anode :=
   | XCall fn a => AFunc "" fn (aast a)
   | XCall0 fn => AFunc "" fn []
   | XVar nm => AVar "" nm
-  | XFilter p e => AFilter (xast p) (xast e)
+  | XFilter p ps => past ps (xast p)
   | XFPath p dbl r => rast r (Some (if dbl then dos_node (Some (xast p)) else xast p))
   end
 with rast (p : rpath) (n : option anode) : anode :=
@@ -883,7 +888,7 @@ Fixpoint xwf (e : px) : Prop :=
   | XCall fn a => node_type_name fn = false /\ awf a
   | XCall0 fn => node_type_name fn = false
   | XVar _ => True
-  | XFilter p e => is_prim p = true /\ xwf p /\ xwf e
+  | XFilter p ps => is_prim p = true /\ xwf p /\ pwf ps
   | XFPath p _ r => is_filt p = true /\ xwf p /\ rwf r
   end
 with rwf (p : rpath) : Prop :=
@@ -911,7 +916,7 @@ with awf (a : xargs) : Prop :=
 Fixpoint xdepth (e : px) : nat :=
   match e with
   | XNum _ | XStr _ | XCall0 _ | XVar _ => 0
-  | XFilter p e => Nat.max (xdepth p) (S (xdepth e))
+  | XFilter p ps => Nat.max (xdepth p) (pdepth_ps ps)
   | XFPath p _ r => Nat.max (xdepth p) (rdepth r)
   | XParen e => S (xdepth e)
   | XBin _ l r => Nat.max (xdepth l) (xdepth r)
@@ -946,12 +951,12 @@ Proof.
 Qed.
 Lemma xtoks_ne : forall e, xtoks e <> [].
 Proof.
-  induction e as [ds|b|e IH|op l IHl r IHr|m e IH|s p|fn a|fn|nm|p IHp e IHe|p IHp dbl r];
+  induction e as [ds|b|e IH|op l IHl r IHr|m e IH|s p|fn a|fn|nm|p IHp ps|p IHp dbl r];
     cbn [xtoks]; try discriminate.
   - destruct (xtoks l); discriminate.
   - destruct m; cbn [repeat app]; [exact IH|discriminate].
   - pose proof (rtoks_ne p). destruct s; cbn; try discriminate. exact H.
-  - destruct (xtoks p); discriminate.
+  - destruct (xtoks p); [congruence|discriminate].
   - destruct (xtoks p); discriminate.
 Qed.
 Lemma atoks_ne : forall a, atoks a <> [].
@@ -970,7 +975,7 @@ Qed.
 
 Lemma xtoks_hd : forall e, xwf e -> 7 <= xlvl e -> hd_not_minus (xtoks e) = true.
 Proof.
-  induction e as [ds|b|e IH|op l IHl r IHr|m e IH|s p|fn a|fn|nm|p IHp e IHe|p IHp dbl r];
+  induction e as [ds|b|e IH|op l IHl r IHr|m e IH|s p|fn a|fn|nm|p IHp ps|p IHp dbl r];
     intros Hw Hl; cbn [xtoks]; try reflexivity.
   - cbn [xwf xlvl] in *. destruct Hw as [H1 [H2 [H3 H4]]].
     apply hd_not_minus_app. apply IHl; [exact H3|lia].
@@ -1108,13 +1113,14 @@ Proof.
   - (* XVar *)
     intros nm Hw. apply PX_prim; [reflexivity|exact Hw|apply Prim_var|exact Hw].
   - (* XFilter *)
-    intros p IHp e IHe Hw.
-    pose proof Hw as Hw0. cbn [xwf] in Hw. destruct Hw as [Hpr [Hwp Hwe]].
+    intros p IHp ps IHps Hw.
+    pose proof Hw as Hw0. cbn [xwf] in Hw. destruct Hw as [Hpr [Hwp Hwps]].
     destruct (IHp Hwp) as [_ [_ [HPp _]]].
-    assert (HF : FiltP ns (xdepth (XFilter p e)) (xtoks (XFilter p e)) (xast (XFilter p e))).
+    assert (HF : FiltP ns (xdepth (XFilter p ps)) (xtoks (XFilter p ps)) (xast (XFilter p ps))).
     { cbn [xdepth xtoks xast].
-      apply Filt_pred with (dn' := xdepth e); [|apply PX_full; [exact Hwe|apply IHe]|lia].
-      eapply PrimP_depth; [|apply HPp; exact Hpr]. lia. }
+      apply (Filt_mk ns _ (xtoks p) (xast p) (ptoks ps) (past ps)); [| |apply ptoks_start].
+      - eapply PrimP_depth; [|apply HPp; exact Hpr]. lia.
+      - eapply PredsP_depth; [|apply IHps; exact Hwps]. lia. }
     apply PX_atom; [reflexivity|exact Hw0|apply Path_filt; exact HF|discriminate|auto|exact Hw0].
   - (* XFPath *)
     intros p IHp dbl r IHr Hw.
@@ -1381,7 +1387,7 @@ Fixpoint expand (e : px) : px :=
   | XCall fn a => XCall fn (expand_a a)
   | XCall0 fn => XCall0 fn
   | XVar nm => XVar nm
-  | XFilter p e => XFilter (expand p) (expand e)
+  | XFilter p ps => XFilter (expand p) (expand_ps ps)
   | XFPath p true r => XFPath (expand p) false (RCons dos_step false (expand_r r))   (* p//r *)
   | XFPath p false r => XFPath (expand p) false (expand_r r)
   end
@@ -1439,7 +1445,7 @@ Proof.
   - intros fn a IH. cbn [expand xast erase]. rewrite IH. reflexivity.
   - reflexivity.
   - reflexivity.
-  - intros p IHp e IHe. cbn [expand xast erase]. rewrite IHp, IHe. reflexivity.
+  - intros p IHp ps IHps. cbn [expand xast]. apply IHps. exact IHp.
   - intros p IHp dbl r IHr. destruct dbl; cbn [expand xast].
     + cbn [rast sast dos_step past]. apply IHr.
       unfold nt_node, axis_node, dos_node. cbn [erase eo]. rewrite IHp. reflexivity.
@@ -1508,7 +1514,7 @@ Proof.
     split; [|auto]. cbn. auto.
   - intros fn a IH [H1 H2]. cbn [expand xwf]. auto.
   - intros fn H. exact H.
-  - intros p IHp e IHe [H1 [H2 H3]]. cbn [expand xwf]. rewrite is_prim_expand. auto.
+  - intros p IHp ps IHps [H1 [H2 H3]]. cbn [expand xwf]. rewrite is_prim_expand. auto.
   - intros p IHp dbl r IHr [H1 [H2 H3]].
     destruct dbl; cbn [expand xwf rwf]; rewrite is_filt_expand; auto.
     split; [auto|]. split; [auto|]. split; [cbn; auto|auto].
@@ -1535,7 +1541,7 @@ Proof.
   - intros m e IH. exact IH.
   - intros s p IH. destruct s; cbn [expand xdepth rdepth]; rewrite IH; reflexivity.
   - intros fn a IH. cbn [expand xdepth]. rewrite IH. reflexivity.
-  - intros p IHp e IHe. cbn [expand xdepth]. rewrite IHp, IHe. reflexivity.
+  - intros p IHp ps IHps. cbn [expand xdepth]. rewrite IHp, IHps. reflexivity.
   - intros p IHp dbl r IHr. destruct dbl; cbn [expand xdepth rdepth]; rewrite IHp, IHr; reflexivity.
   - intros s IH. exact IH.
   - intros s IHs dbl r IHr. destruct dbl; cbn [expand_r rdepth]; rewrite IHs, IHr; reflexivity.
@@ -1573,11 +1579,8 @@ Proof.
     apply andb_prop in H. destruct H as [H0 H]. apply andb_prop in H. destruct H as [H1 H].
     apply forallb_app_true in H. destruct H as [H2 H3].
     rewrite H0, H1. apply forallb_app_true. auto.
-  - intros p IHp e IHe H. cbn [expand xtoks] in *.
-    apply forallb_app_true in H. destruct H as [H1 H2]. cbn [forallb] in H2.
-    apply andb_prop in H2. destruct H2 as [H2 H3].
-    apply forallb_app_true in H3. destruct H3 as [H3 H4].
-    apply forallb_app_true. split; [auto|]. cbn [forallb]. rewrite H2.
+  - intros p IHp ps IHps H. cbn [expand xtoks] in *.
+    apply forallb_app_true in H. destruct H as [H1 H2].
     apply forallb_app_true. auto.
   - intros p IHp dbl r IHr H. cbn [xtoks] in H.
     apply forallb_app_true in H. destruct H as [H1 H2]. cbn [forallb] in H2.
@@ -1680,7 +1683,7 @@ Qed.
 (* filter expressions, variables:  (a|b)[1]/c   and   f($x)[2]//@d *)
 Definition ex3 : px :=
   XFPath (XFilter (XParen (XBin BUnion (XPath PRel (ROne (nm_step "a"))) (XPath PRel (ROne (nm_step "b")))))
-                  (xnum "1"))
+                  (PCons (xnum "1") PNil))
          false (ROne (nm_step "c")).
 Example ex3_text : print_min ex3 = "(a|b)[1]/c".
 Proof. vm_compute. reflexivity. Qed.
@@ -1688,7 +1691,7 @@ Example ex3_parse : parse "(a|b)[1]/c" None = Ok (xast ex3).
 Proof. xrt ex3. Qed.
 
 Definition ex4 : px :=
-  XFPath (XFilter (XCall "f" (AOne (XVar "x"))) (xnum "2")) true
+  XFPath (XFilter (XCall "f" (AOne (XVar "x"))) (PCons (xnum "2") PNil)) true
          (ROne (SAxis AxAt (NName "d") PNil)).
 Example ex4_text : print_min ex4 = "f($x)[2]//@d".
 Proof. vm_compute. reflexivity. Qed.
@@ -1702,11 +1705,33 @@ Proof.
     [cbn; repeat split; reflexivity | vm_compute; reflexivity | cbn; unfold max_depth; lia].
 Qed.
 
-(* OBSERVATION (grammar deviation of the engine, not of the model): the XPath 1.0
-   grammar has  FilterExpr ::= PrimaryExpr | FilterExpr Predicate  (any number of
-   predicates); parseFilterExpr accepts at most ONE predicate after a primary
-   expression, so "(a)[1][2]" is rejected although "a[1][2]" is accepted. *)
+(* FilterExpr ::= PrimaryExpr Predicate* : any number of predicates after a
+   primary expression ("(a)[1][2]" used to be rejected by parseFilterExpr, which
+   accepted at most one; repaired in the engine and in the model) *)
+Definition ex5 : px :=
+  XFilter (XParen (XPath PRel (ROne (nm_step "a")))) (PCons (xnum "1") (PCons (xnum "2") PNil)).
+Example ex5_text : print_min ex5 = "(a)[1][2]".
+Proof. vm_compute. reflexivity. Qed.
 Example filter_two_predicates :
-  parse "(a)[1][2]" None = Err "has an invalid token" /\
-  exists t, parse "a[1][2]" None = Ok t.
-Proof. split; [vm_compute; reflexivity|eexists; vm_compute; reflexivity]. Qed.
+  parse "(a)[1][2]" None =
+  Ok (AFilter (AFilter (AGroup (AAxis "child" NTElem "" "a" "" false "" None))
+                       (ANum (of_decimal false ["1"%char] [])))
+              (ANum (of_decimal false ["2"%char] []))).
+Proof. xrt ex5. Qed.
+
+(* f(x)[1][2]/b *)
+Definition ex6 : px :=
+  XFPath (XFilter (XCall "f" (AOne (XPath PRel (ROne (nm_step "x")))))
+                  (PCons (xnum "1") (PCons (xnum "2") PNil)))
+         false (ROne (nm_step "b")).
+Example ex6_text : print_min ex6 = "f(x)[1][2]/b".
+Proof. vm_compute. reflexivity. Qed.
+Example ex6_parse : parse "f(x)[1][2]/b" None = Ok (xast ex6).
+Proof. xrt ex6. Qed.
+Example ex6_abbrev : exists a a',
+  parse "f(x)[1][2]/b" None = Ok a /\
+  parse "f(child::x)[1][2]/child::b" None = Ok a' /\ erase a = erase a'.
+Proof.
+  apply (C10_abbreviations None ex6);
+    [cbn; repeat split; reflexivity | vm_compute; reflexivity | cbn; unfold max_depth; lia].
+Qed.
